@@ -33,8 +33,8 @@ func OpenFilesToChan(filenames <-chan string, gunzip bool, concurrency int, batc
 				defer func() {
 					verifTrace("sema.rel", goFilename, 0, 0)
 					<-sema
-					wg.Done()
 					out.stopFileReading(goFilename)
+					wg.Done()
 					verifTrace("rd.end", goFilename, 0, 0)
 				}()
 
